@@ -144,5 +144,5 @@ Transparent == \A t \in Threads : pc[t] = "done" =>
 \* weak fairness every verification terminates
 Progress == \A t \in Threads : pc[t] # "done" => ENABLED ThreadStep(t)
 Termination == <>(\A t \in Threads : pc[t] = "done")
-Fair == \A t \in 1..8 : WF_vars(t \in Threads /\ ThreadStep(t))
+Fair == \A t \in 1..4 : WF_vars(t \in Threads /\ ThreadStep(t))
 =============================================================================
